@@ -1,5 +1,6 @@
 """C03 - JWS sign-then-verify round trip for every algorithm and serialization (E1, exploration)."""
 import copy
+import json
 
 from .. import config, scen
 from .. import alphabet as A
@@ -657,6 +658,70 @@ def h_7797_default_b64(ctx):
     return Outcome(f"{'ok' if not vs else 'BAD'}:{alg}:{shape}:{b64m}", vs, nontrivial=(alg, kind, shape, b64m, producer, consumer, given, pname))
 
 
+def h_both_arguments(ctx):
+    """registry= (configured for the application: strict checking off, an application header member registered, a subclass) AND algorithms=
+    given to one call, the algorithm being in both lists: under either reading of that combination the round trip must hold."""
+    from joserfc import jws, jwt, rfc7797
+    from joserfc.registry import HeaderParameter
+    alg, kind = ctx.choose("alg/key", [("HS256", "oct32"), ("ES256", "P-256"), ("EdDSA", "Ed25519"), ("HS512", "oct64")])
+    path = ctx.choose("path", ["compact", "extract+validate", "flattened", "general", "rfc7797.compact (b64 absent)", "jwt"])
+    reg_kind = ctx.choose("registry", ["strict checking off", "application member registered", "subclass with its own default header registry"])
+    relation = ctx.choose("algorithms_is", ["equal to the registry's list", "a subset of it", "a superset of it", "the same names in another order"])
+    both_on = ctx.choose("both_given_to", ["verify only", "sign and verify"])
+    other = "HS384" if alg != "HS384" else "HS256"
+    reg_list = [alg, other]
+    L = {"equal to the registry's list": [alg, other], "a subset of it": [alg], "a superset of it": [alg, other, "PS256"], "the same names in another order": [other, alg]}[relation]
+
+    class TenantRegistry(jws.JWSRegistry):
+        default_header_registry = {**jws.JWSRegistry.default_header_registry, "tenant": HeaderParameter("Tenant", "str")}
+    if reg_kind == "strict checking off":
+        reg = jws.JWSRegistry(algorithms=list(reg_list), strict_check_header=False)
+    elif reg_kind == "application member registered":
+        reg = jws.JWSRegistry(header_registry={"tenant": HeaderParameter("Tenant", "str")}, algorithms=list(reg_list))
+    else:
+        reg = TenantRegistry(algorithms=list(reg_list))
+    jwk = scen.key(kind)
+    priv, pub = A.jkey(jwk, "dict"), A.jkey(jwk, "dict", private=(jwk["kty"] == "oct"))
+    hdr = {"alg": alg, "tenant": "acme"}
+    skw = {"registry": reg, **({"algorithms": list(L)} if both_on == "sign and verify" else {})}
+    vkw = {"registry": reg, "algorithms": list(L)}
+    payload = b'{"iss":"a"}'
+    nt = (alg, path, reg_kind, relation, both_on)
+    what = f"{alg} {path}, registry with {reg_kind} allowing {reg_list}, algorithms={L} given to {both_on}"
+    if path in ("compact", "extract+validate"):
+        r = call(jws.serialize_compact, dict(hdr), payload, priv, **skw)
+    elif path == "flattened":
+        r = call(jws.serialize_json, {"protected": dict(hdr)}, payload, priv, **skw)
+    elif path == "general":
+        r = call(jws.serialize_json, [{"protected": dict(hdr)}], payload, priv, **skw)
+    elif path.startswith("rfc7797"):
+        r = call(rfc7797.serialize_compact, dict(hdr), payload, priv, **skw)
+    else:
+        r = call(jwt.encode, dict(hdr), {"iss": "a"}, priv, **skw)
+    if not r.ok:
+        return Outcome("both:sign-failed", [viol(f"signing fails with a registry and an allow-list that both admit the algorithm [{path}]", f"{what}: {r.exc!r}")], nontrivial=nt)
+    tok = r.value
+
+    def verify():
+        if path == "compact":
+            return bytes(jws.deserialize_compact(tok, pub, **vkw).payload)
+        if path == "extract+validate":
+            o = jws.extract_compact(tok.encode())
+            if jws.validate_compact(o, pub, **vkw) is not True:
+                raise ValueError("validate_compact did not return True")
+            return bytes(o.payload)
+        if path in ("flattened", "general"):
+            return bytes(jws.deserialize_json(copy.deepcopy(tok), pub, **vkw).payload)
+        if path.startswith("rfc7797"):
+            return bytes(rfc7797.deserialize_compact(tok, pub, **vkw).payload)
+        return json.dumps(jwt.decode(tok, pub, **vkw).claims, separators=(",", ":")).encode()
+    v = call(verify)
+    vs = []
+    if not v.ok or v.value != payload:
+        vs.append(viol(f"own output does not verify with a registry and an allow-list that both admit the algorithm [{path}]", f"{what}: {v.exc!r}"))
+    return Outcome(f"both:{'ok' if not vs else 'BAD'}:{path}", vs, nontrivial=nt)
+
+
 _p2 = Part("ecdsa-leading-zero", h_ecdsa_lz, split_depth=1)
 _p3 = Part("general-multi-signer", h_multi_signer, split_depth=2)
 _p3.single_bucket_ok = True
@@ -667,6 +732,7 @@ _pc.single_bucket_ok = True
 PARTS = [
     _pc, _pt,
     Part("rfc7797-functions-with-b64-left-at-its-default", h_7797_default_b64, split_depth=2),
+    Part("registry-and-allow-list-in-one-call", h_both_arguments, split_depth=2),
     Part("keys-declaring-their-operation", h_declared, split_depth=2),
     Part("thread-schedules", h_threads, bound={"quick": 1, "thorough": 2}, split_depth=3, budget={"quick": 2000, "thorough": 3000}, engine="E3"),
     Part("roundtrip", h_roundtrip, bound={"quick": 0, "thorough": 0}, split_depth=2, budget={"quick": 1200, "thorough": 1500}),
